@@ -11,7 +11,7 @@ pub fn run(tier: Tier, seed: u64) {
         "zkabacus_crypto::merchant::Config::check_close_signature",
     ]);
     eng::bound("store-and-restore at each of the five stages of establish + one payment (quick: amount 7; thorough: 7, -7, 0; both tiers: two boundary histories reaching balances 2^63-1 and 0), also right after a refused reply; identical randomness = the same draw variables");
-    for a in if tier == Tier::Quick { vec![7i64] } else { vec![7, -7, 0] } {
+    for a in if tier == Tier::Quick { vec![7i64, 0] } else { vec![7, -7, 0] } {
         history(seed, 100, 50, a);
     }
     // boundary balances: the payment drives the customer / merchant balance to exactly 2^63-1 and to 0
